@@ -26,7 +26,7 @@ RULE = ("Round trip. Accepted programs (generated scalar-core programs with stru
 ASSUMPTIONS = [
     "the in-memory module of the same compilation is the reference (differential; no semantic model involved)",
     "VM failures are compared by exception class: a reloaded module must fail exactly where the original fails",
-    "program size is bounded by the generators; pickle recursion limits on very large functions are outside the explored region",
+    "functions far beyond the generators' sizes are probed by a fixed ladder (30 / 90 / 300 / 600 consecutive ifs, loops, assignments); the pickle recursion limit they hit is a recorded known finding",
 ]
 
 POOL = [
@@ -51,6 +51,8 @@ POOL = [
 
 
 class Item:
+    """a source with inputs; show() abbreviates very long sources"""
+
     def __init__(self, src, entry, inputs, optimize):
         self.src = src
         self.entry = entry
@@ -58,7 +60,8 @@ class Item:
         self.optimize = optimize
 
     def show(self):
-        return "%s// optimize=%s entry=%s inputs=%r" % (self.src, self.optimize, self.entry, self.inputs)
+        src = self.src if len(self.src) < 4000 else self.src[:600] + "\n... (%d lines in total) ...\n" % self.src.count("\n") + self.src[-200:]
+        return "%s// optimize=%s entry=%s inputs=%r" % (src, self.optimize, self.entry, self.inputs)
 
 
 @st.composite
@@ -142,7 +145,8 @@ def inproc_case(ctx, item):
             with open(path, "wb") as fh:
                 pickle.dump(c.ir, fh)
         except Exception as e:
-            ctx.fail("store|" + type(e).__name__, "module cannot be stored: %r\n%s" % (e, item.show()), item)
+            nblocks = sum(len(f.BasicBlocks) for f in c.ir.Functions.values())
+            ctx.fail("store|" + type(e).__name__, "module (%d basic blocks) cannot be stored: %r\n%s" % (nblocks, e, item.show()), item)
             return
         try:
             with adapter.quiet():
@@ -286,7 +290,23 @@ def fresh_worker_factory(R, n_cases, n_cli):
     return worker
 
 
+def large_case(ctx, spec):
+    """functions far larger than the generators produce: n consecutive statements of one kind"""
+    kind, n = spec
+    if kind == "if":
+        body = "".join("if ( a > %d ) { a = a + 1 ; }\n" % i for i in range(n))
+    elif kind == "loop":
+        body = "".join("for ( int i%d = 0 ; i%d < 2 ; ++ i%d ) { a = a + %d ; }\n" % (i, i, i, i % 5) for i in range(n))
+    else:
+        body = "".join("a = a + %d ;\n" % (i % 7) for i in range(n))
+    src = "export function f ( int a ) -> int {\n%s return a ;\n}\n" % body
+    ctx.label("large:%s" % kind)
+    inproc_case(ctx, Item(src, "f", [({"a": 1}, {}), ({"a": -3}, {})], n % 2 == 0))
+
+
 def run(R):
+    R.enum("large-functions", [(k, n) for k in ("if", "loop", "straight") for n in (30, 90, 300, 600)], large_case,
+           exhaustive=False)
     R.hyp("roundtrip-inproc", items(), inproc_case, examples=R.pick(120, 2500))
     R.custom("fresh-process", fresh_worker_factory(R, R.pick(40, 600), R.pick(3, 40)), nworkers=16)
     for l in ("optimize=True", "optimize=False", "stored-by-nslc", "loaded-in-fresh-process"):
